@@ -253,7 +253,7 @@ var c07Witnesses = []Witness{
 		{File: "engine.go", Old: "	var (\n		param  []Value\n		param2 [2]Value\n		curt   *node\n	)", New: "	var (\n		param  []Value\n		param2 [2]Value\n		curt   *node\n	)\n	_ = param2"},
 	}},
 	{Name: "event-wrapper-counts-calls", Rule: "R-EFFECT", Edits: []Edit{
-		{File: "compiler.go", Old: "			isFastOp = n.getNodeType() == fastOperator\n		)\n		return func(ctx *Ctx, params []Value) (res Value, err error) {\n			res, err = op(ctx, params)", New: "			isFastOp = n.getNodeType() == fastOperator\n			calls    int\n		)\n		return func(ctx *Ctx, params []Value) (res Value, err error) {\n			calls++\n			res, err = op(ctx, params)"},
+		{File: "compiler.go", Old: "			isFastOp = n.getNodeType() == fastOperator\n		)\n		return func(ctx *Ctx, params []Value) (res Value, err error) {\n", New: "			isFastOp = n.getNodeType() == fastOperator\n			calls    int\n		)\n		return func(ctx *Ctx, params []Value) (res Value, err error) {\n			calls++\n"},
 	}},
 	{Name: "overlap-sorts-constant-list-in-place", Rule: "R-EFFECT", Edits: []Edit{
 		{File: "operator.go", Old: "			if len(A) > len(B) {\n				A, B = B, A\n			}\n			set := make(map[int64]struct{}, len(A))", New: "			if len(A) > len(B) {\n				A, B = B, A\n			}\n			sort.Slice(A, func(i, j int) bool { return A[i] < A[j] })\n			set := make(map[int64]struct{}, len(A))"},
